@@ -2028,6 +2028,13 @@ func genC15(g *G, sc *Scenario, tier string) {
 	sc.Knobs["web.batchSize"] = int64(g.PickInt([]int{1, 2, 10}))
 	// a few identifiers whose serialised forms collide as strings with the declared prefix names
 	c.Pool = append(c.Pool, MkS+"K0", MkE+"t1carl", MkE+"t", MkE+"httpStatus", MkE+"https-only")
+	// local names that contain colons themselves (composite keys): the prefix ends at the first colon
+	c.Pool = append(c.Pool, MkS+"ord:1", MkS+"ord:2", MkS+"line:1:a")
+	c.PropKeys = append(c.PropKeys, MkS+"k:1")
+	if g.P(0.5) {
+		// the two hubs have met different namespaces before, so the same prefix number means different things to them
+		sc.Knobs["skewNS"] = 1
+	}
 	// property and reference keys in both namespaces with the same local names: the serialised key "s:a0" of one
 	// payload and of the next (whose context swaps the prefixes) are different properties
 	c.PropKeys = append(c.PropKeys, MkE+"a0", MkS+"a0")
